@@ -85,27 +85,34 @@ class TablerowNode(Node):
         character_count += buffer.write('<tr class="row1">\n')
         _break = False
 
-        with context.extend(namespace):
-            for item in drop:
-                namespace[name] = item
-                character_count += buffer.write(f'<td class="col{drop.col}">')
+        # Loops inside the block are nested in this one.
+        carry = context.loop_iteration_carry
+        context.loop_iteration_carry = carry * length
 
-                try:
-                    character_count += self.block.render(context=context, buffer=buffer)
-                except BreakLoop:
-                    _break = True
-                except ContinueLoop:
-                    pass
+        try:
+            with context.extend(namespace):
+                for item in drop:
+                    namespace[name] = item
+                    character_count += buffer.write(f'<td class="col{drop.col}">')
 
-                character_count += buffer.write("</td>")
+                    try:
+                        character_count += self.block.render(context=context, buffer=buffer)
+                    except BreakLoop:
+                        _break = True
+                    except ContinueLoop:
+                        pass
 
-                if drop.col_last and not drop.last:
-                    character_count += buffer.write(
-                        f'</tr>\n<tr class="row{drop.row + 1}">'
-                    )
+                    character_count += buffer.write("</td>")
 
-                if _break:
-                    break
+                    if drop.col_last and not drop.last:
+                        character_count += buffer.write(
+                            f'</tr>\n<tr class="row{drop.row + 1}">'
+                        )
+
+                    if _break:
+                        break
+        finally:
+            context.loop_iteration_carry = carry
 
         character_count += buffer.write("</tr>\n")
         return character_count
@@ -142,29 +149,36 @@ class TablerowNode(Node):
         character_count += buffer.write('<tr class="row1">\n')
         _break = False
 
-        with context.extend(namespace):
-            for item in drop:
-                namespace[name] = item
-                character_count += buffer.write(f'<td class="col{drop.col}">')
+        # Loops inside the block are nested in this one.
+        carry = context.loop_iteration_carry
+        context.loop_iteration_carry = carry * length
 
-                try:
-                    character_count += await self.block.render_async(
-                        context=context, buffer=buffer
-                    )
-                except BreakLoop:
-                    _break = True
-                except ContinueLoop:
-                    pass
+        try:
+            with context.extend(namespace):
+                for item in drop:
+                    namespace[name] = item
+                    character_count += buffer.write(f'<td class="col{drop.col}">')
 
-                character_count += buffer.write("</td>")
+                    try:
+                        character_count += await self.block.render_async(
+                            context=context, buffer=buffer
+                        )
+                    except BreakLoop:
+                        _break = True
+                    except ContinueLoop:
+                        pass
 
-                if drop.col_last and not drop.last:
-                    character_count += buffer.write(
-                        f'</tr>\n<tr class="row{drop.row + 1}">'
-                    )
+                    character_count += buffer.write("</td>")
 
-                if _break:
-                    break
+                    if drop.col_last and not drop.last:
+                        character_count += buffer.write(
+                            f'</tr>\n<tr class="row{drop.row + 1}">'
+                        )
+
+                    if _break:
+                        break
+        finally:
+            context.loop_iteration_carry = carry
 
         character_count += buffer.write("</tr>\n")
         return character_count
